@@ -19,7 +19,7 @@ Local Open Scope nat_scope.
 Inductive exn :=
 | EAttributeError        (* `.data` / `.children` / `.type` on the wrong kind of object *)
 | EIndexError            (* children[0] of an empty list, literal[0] of an empty token *)
-| ETypeError             (* ', '.join over a set holding None *)
+| ETypeError             (* ', '.join over a set holding None: raised by _load_step before 2f140bc; no longer produced *)
 | EUnsupported           (* structure_extractor.UnsupportedStructure *)
 | EOutOfModel.           (* f"{tree}" of a lark Tree: its repr is not modelled; never on grammar trees *)
 
@@ -454,17 +454,15 @@ Definition load_step_fields (st : step_spec) (k0 : list string) : res (bool * li
   | Some k4 => Done (true, k0 ++ k1 ++ k2 ++ k3 ++ k4)
   end) end) end) end).
 
-Definition is_none (n : option string) : bool := match n with None => true | Some _ => false end.
-
-(* the order check (380-393) *)
-Definition order_check (label : string) (known keys : list string) : res step_out :=
+(* the order check (380-393; since 2f140bc the message formats each label, so a None in
+   the set no longer raises): a needed name that is not an earlier label - None included -
+   makes the step an ErrorStep *)
+Definition order_check (label : string) (known keys : list string) : step_out :=
   let needed := needed_steps keys in
   let out_of_order := filter (fun n => negb (opt_mem n known)) needed in
   match out_of_order with
-  | [] => Done (SStep label (somes needed))
-  | _ => if existsb is_none out_of_order
-         then Raised ETypeError                              (* ', '.join(out_of_order_steps) *)
-         else Done (SErr label CPermFail)
+  | [] => SStep label (somes needed)
+  | _ => SErr label CPermFail
   end.
 
 (* _load_step: (resources or None, the step, needed parent properties) *)
@@ -481,7 +479,7 @@ Definition load_step (st : step_spec) (known : list string)
       else
       bind (load_step_fields st k0) (fun '(ok, keys) =>
       if negb ok then Done (rs, SErr label CPermFail, needed_parent keys)
-      else bind (order_check label known keys) (fun o => Done (rs, o, needed_parent keys))))
+      else Done (rs, order_check label known keys, needed_parent keys)))
   end.
 
 (* the loop of _load_steps *)
